@@ -49,6 +49,14 @@ Section TableP.
 
   (* ---------- Repr helpers ---------- *)
 
+  Lemma option_eq_dec (a b : option V) : {a = b} + {a <> b}.
+  Proof.
+    destruct a as [x|], b as [y|]; try (right; discriminate); [|left; reflexivity].
+    destruct (veq x y) eqn:E.
+    - left. apply veq_spec in E. subst. reflexivity.
+    - right. intros [= ->]. assert (veq y y = true) by (apply veq_spec; reflexivity). congruence.
+  Qed.
+
   Lemma Repr_ext h S S' c fl : Repr h S c fl -> (forall m, S m = S' m) -> Repr h S' c fl.
   Proof.
     intros [Rs Rh Rf Rl Rla Rt] E. constructor; try assumption.
@@ -723,4 +731,85 @@ Section TableP.
     apply (get_range_determined_by_latest _ _ _ _ lo hi TR2 TR).
     intros k. unfold latest_or_none. rewrite Hl. reflexivity.
   Qed.
+
+  (* ---------- a crash in the middle of commit(b) (C04) ----------
+     commit writes two rows per cache entry: a history that is kept is written BEFORE the
+     latest row; a history that is dropped (is_old) is deleted AFTER the latest row.  A crash
+     leaves each key in one of three persistent states; the in-memory cache is gone. *)
+
+  Definition crash_none (c : cell) : cell := (c_d c, c_p c, None).
+  Definition crash_mid (b : N) (c : cell) : res cell :=
+    match c_m c with
+    | Some h =>
+        if h_is_old W h b
+        then do l <- h_latest h; Ok (l, c_p c, None)          (* latest row written, old history row still there *)
+        else Ok (c_d c, Some h, None)                          (* history row written, latest row stale *)
+    | None => Ok (c_d c, c_p c, None)
+    end.
+  Definition crash_both (b : N) (c : cell) : res cell := c_commit b c.
+
+  Lemma c_reorg_ignores_d n d1 d2 (hp : hist) :
+    c_reorg n (d1, Some hp, None) = c_reorg n (d2, Some hp, None).
+  Proof.
+    unfold c_reorg, c_touched, c_retrieve, effp, c_write, c_commit. cbn [c_p c_m c_d fst snd].
+    destruct (h_reorg hp n) as [h'| |]; reflexivity.
+  Qed.
+
+  (* [cd]: the height that was durable before the commit started; writes made since are
+     stamped above it, so the current and the saved specification agree up to [cd]. *)
+  Theorem crash_in_commit_recovers c S Sv clk sclk b cd n :
+    CellRepr c S Sv clk sclk ->
+    (forall m, m <= cd -> S m = Sv m) ->
+    n <= cd -> N.max clk (b - 1) <= n + W ->
+    forall K, (K = crash_none c \/ crash_mid b c = Ok K \/ crash_both b c = Ok K) ->
+    exists c' clk', c_reorg n K = Ok c' /\
+                    CellRepr c' (s_reorg S n) (s_reorg S n) clk' clk'.
+  Proof.
+    intros CR Hagree Hn Hwin K HK.
+    assert (Hext : forall m, s_reorg Sv n m = s_reorg S n m).
+    { intros m. unfold s_reorg. symmetry. apply Hagree. lia. }
+    assert (G0 : exists c' clk', c_reorg n (crash_none c) = Ok c' /\
+                                 CellRepr c' (s_reorg S n) (s_reorg S n) clk' clk').
+    { pose proof (CellRepr_clear _ _ _ _ _ CR) as CR0.
+      assert (Hw : sclk <= n + W) by (pose proof (cr_clk _ _ _ _ _ CR); lia).
+      destruct (CellRepr_reorg _ _ _ _ _ n CR0 Hw) as (c' & Hc' & CR').
+      exists c', (N.max sclk (n - 1)). split; [exact Hc'|].
+      destruct CR' as [(flp & Rp) Rd Rm Rc]. constructor; try assumption.
+      - exists flp. apply (Repr_ext _ (s_reorg Sv n)); assumption.
+      - destruct (c_m c'); [|reflexivity]. destruct Rm as (fl & R). exists fl.
+        apply (Repr_ext _ (s_reorg Sv n)); assumption. }
+    assert (G2 : forall K2, crash_both b c = Ok K2 ->
+                 exists c' clk', c_reorg n K2 = Ok c' /\ CellRepr c' (s_reorg S n) (s_reorg S n) clk' clk').
+    { intros K2 HK2. destruct (CellRepr_commit _ _ _ _ _ b CR) as (c2 & Hc2 & CR2).
+      unfold crash_both in HK2. rewrite Hc2 in HK2. injection HK2 as <-.
+      destruct (CellRepr_reorg _ _ _ _ _ n CR2 Hwin) as (c' & Hc' & CR').
+      exists c', (N.max (N.max clk (b - 1)) (n - 1)). split; assumption. }
+    destruct HK as [->|[HK|HK]]; [exact G0| |exact (G2 K HK)].
+    unfold crash_mid in HK. destruct c as [[d p] m]. cbn [c_m c_d c_p fst snd] in *.
+    destruct m as [h|]; [|injection HK as <-; exact G0].
+    destruct (h_is_old W h b) eqn:Hold.
+    - (* latest row written, the old history row (if any) still there *)
+      destruct (h_latest h) as [l| |] eqn:Hl; cbn [rbind] in HK; try discriminate. injection HK as <-.
+      destruct p as [hp|].
+      + (* reloaded from the old history row: as if nothing had been written *)
+        rewrite (c_reorg_ignores_d n l d hp). exact G0.
+      + (* no history row: this IS the fully committed state *)
+        apply G2. unfold crash_both, c_commit. cbn [c_m c_d c_p fst snd]. rewrite Hl, Hold. reflexivity.
+    - (* history row written, latest row stale: the reorg reloads the history row *)
+      injection HK as <-.
+      destruct (h_latest h) as [l| |] eqn:Hl.
+      + rewrite (c_reorg_ignores_d n d l h). apply G2.
+        unfold crash_both, c_commit. cbn [c_m c_d c_p fst snd]. rewrite Hl, Hold. reflexivity.
+      + destruct (CellRepr_commit _ _ _ _ _ b CR) as (c2 & Hc2 & _).
+        unfold c_commit in Hc2. cbn [c_m c_d c_p fst snd] in Hc2. rewrite Hl in Hc2. discriminate.
+      + destruct (CellRepr_commit _ _ _ _ _ b CR) as (c2 & Hc2 & _).
+        unfold c_commit in Hc2. cbn [c_m c_d c_p fst snd] in Hc2. rewrite Hl in Hc2. discriminate.
+  Qed.
+
+  (* The order matters: had the dropped history row been deleted BEFORE the latest row was
+     written (as the code did before the repair), the state in between, with no history row and
+     a stale latest row, is beyond recovery: the reorg does not touch the key. *)
+  Theorem crash_delete_first_unrecoverable n (d : option V) :
+    c_reorg n (d, None, None) = Ok (d, None, None).
+  Proof. reflexivity. Qed.
 End TableP.
